@@ -431,6 +431,7 @@ template <class G> struct Exec {
         const G x(a);
         G y; y = a;
         std::vector<G, Eigen::aligned_allocator<G> > v; v.push_back(a); v.emplace_back(a);
+        { const G z(a.coeffs()); if (!same_bits(z.coeffs(), x.coeffs())) out.flags |= 4; }   // from the coefficient vector
         put_e(out, x); put(out.j1, out.n1, y.coeffs()); put(out.j2, out.n2, v[1].coeffs());
       } break;
       case OP_ACCESSORS: { Collector c(out); if (!Acc<G>::read(a, c)) out.status = 9; } break;
@@ -463,6 +464,26 @@ template <class G> struct Exec {
       default: out.status = 9;
     }
   }
+
+  // tangent views: sub-views sit at the documented offsets; a copy of a view views the same buffer
+  template <class TA> static bool tsub_offsets_ok(const TA& a, std::true_type, std::false_type) {
+    const Eigen::Map<const manif::SO3Tangent<S> > v(a.asSO3());
+    LayoutAcc acc; Layout<G>::fill(acc, 0, 0);
+    return acc.n_ang == 1 && (const void*)v.data() == (const void*)(a.data() + acc.ang[0].off);
+  }
+  template <class TA> static bool tsub_offsets_ok(const TA& a, std::false_type, std::true_type) {
+    enum { L = G::BundleSize - 1 };
+    const typename T::template MapConstElement<0> v0(a.template element<0>());
+    const typename T::template MapConstElement<1> v1(a.template element<1>());
+    const typename T::template MapConstElement<L> vl(a.template element<L>());
+    return (v0.data() - a.data()) == std::get<0>(manif::internal::traits<G>::DoFIdx) &&
+           (v1.data() - a.data()) == std::get<1>(manif::internal::traits<G>::DoFIdx) &&
+           (vl.data() - a.data()) == std::get<L>(manif::internal::traits<G>::DoFIdx);
+  }
+  template <class TA> static bool tsub_offsets_ok(const TA&, std::false_type, std::false_type) { return true; }
+  static bool tcopy_ok(const T& a) { const T c(a); return std::memcmp(c.data(), a.data(), sizeof(S) * DoF) == 0 && c.data() != a.data(); }
+  static bool tcopy_ok(const MT& a) { MT c(a); return c.data() == a.data(); }
+  static bool tcopy_ok(const CT&) { return true; }   // Map<const> is move-only on the pinned tree
 
   // ---- tangent ---------------------------------------------------------------------
   template <class TA, class TB> static void tt(const TA& a, const TB& b, const OpRec& op, Out& out) {
@@ -522,6 +543,21 @@ template <class G> struct Exec {
       } break;
       case OP_JT_MUL: jt_mul(t, out, std::is_same<TA, T>()); break;
       case OP_T_STREAM: stream_out(t, out); break;
+      case OP_T_DATAPTR: {
+        const void* expect = (op.ka == K_OWN) ? (const void*)st.t[op.a].data() : (const void*)st.tbuf[op.a];
+        out.nv = 3;
+        out.v[0] = ((const void*)t.data() == expect && (const void*)t.coeffs().data() == expect) ? 1.0 : 0.0;
+        out.v[1] = tsub_offsets_ok(t, HasAsSO3(), IsBundle()) ? 1.0 : 0.0;
+        out.v[2] = tcopy_ok(t) ? 1.0 : 0.0;
+      } break;
+      case OP_T_CONSTRUCT: {   // owning tangents built from whatever kind the operand is, and from its coefficient vector
+        const T x(t);
+        T y; y = t;
+        const T z(t.coeffs());
+        std::vector<T, Eigen::aligned_allocator<T> > v; v.push_back(t); v.emplace_back(t);
+        if (!same_bits(z.coeffs(), x.coeffs())) out.flags |= 4;
+        put_e(out, x); put(out.j1, out.n1, y.coeffs()); put(out.j2, out.n2, v[1].coeffs());
+      } break;
       case OP_T_ACCESSORS: { Collector c(out); if (!TAcc<T>::read(t, c)) out.status = 9; } break;   // J*t only instantiates for owning tangents
       case OP_T_RPLUS_X: case OP_T_LPLUS_X: case OP_T_PLUS_X: case OP_T_ADD_X:
         // these take `const LieGroup&`: a view operand is converted to a temporary owning object by the library
